@@ -74,7 +74,7 @@ def body_fixed(rnd, kind):
         if agg == "sum":
             return [FE("l", "i", [E(B(rnd.choice(["le", "lt"]), B("add", SUB("l", IX("i")), SUB("l", IX("i"))), {"k": "sum", "l": "l"}))], it=False, idx=True)]
         return [FE("l", "i", [E(B("gt", SUB("l", IX("i")), lit(0))), E(B("le", B("mul", SUB("l", IX("i")), lit(2)), {"k": "prod", "l": "l"}))], it=False, idx=True)]
-    if kind == "fe_toggle":
+    if kind in ("fe_toggle", "fe_dyn"):
         return [E(B("le", F("a"), lit(3)))]      # (the foreach lives in block c9, toggled by the history)
     if kind == "uniq":
         return [{"k": "uniq", "args": [{"k": "lst", "p": "l"}]}]
@@ -89,7 +89,7 @@ def body_fixed(rnd, kind):
     raise ValueError(kind)
 
 
-FIXED_KINDS = ["fe_it", "fe_idx", "fe_both", "fe_sorted", "fe_guard", "sum", "uniq", "uniq_mixed", "member", "index", "nl_member", "prod", "prod_fe", "fe_tbl", "fe_notidx", "fe_part", "idx_merge", "fe_toggle", "fe_agg"]
+FIXED_KINDS = ["fe_it", "fe_idx", "fe_both", "fe_sorted", "fe_guard", "sum", "uniq", "uniq_mixed", "member", "index", "nl_member", "prod", "prod_fe", "fe_tbl", "fe_notidx", "fe_part", "idx_merge", "fe_toggle", "fe_agg", "fe_dyn"]
 
 
 def family_fixed(tier, seed, n=None):
@@ -112,11 +112,17 @@ def family_fixed(tier, seed, n=None):
             if kind == "fe_toggle":
                 blocks.append({"name": "c9", "dynamic": False,
                                "body": [FE("l", "i", [E(B(rnd.choice(["eq", "le"]), SUB("l", IX("i")), B("and", IX("i"), lit(3))))], it=False, idx=True)]})
+            dyn = []
+            if kind == "fe_dyn":
+                # the foreach lives in a DYNAMIC block: it is expanded when a call references the block
+                blocks.append({"name": "dq", "dynamic": True,
+                               "body": [FE("l", "i", [E(B(rnd.choice(["eq", "le"]), SUB("l", IX("i")), B("and", B("add", IX("i"), lit(1)), lit(3))))], it=False, idx=True)]})
+                dyn = [E({"k": "dyn", "o": "", "b": "dq"})]
             world = {"classes": {"A": {"base": "", "fields": fields, "blocks": blocks}},
                      "population": [{"id": "o1", "cls": "A"}]}
             elems = ["o1.l[%d]" % i for i in range(size)]
-            probe = {"op": "probe", "call": wcall(), "paths": ["o1.a"] + elems}
-            ops = [{"op": "construct", "o": "o1"}, {"op": "call", "call": mcall()}, {"op": "call", "call": mcall()}, probe]
+            probe = {"op": "probe", "call": wcall(dyn), "paths": ["o1.a"] + elems}
+            ops = [{"op": "construct", "o": "o1"}, {"op": "call", "call": mcall() if not dyn else wcall(dyn)}, {"op": "call", "call": mcall()}, probe]
             if kind == "fe_toggle":
                 # the block with the foreach is OFF during a call, the list changes, the block is switched on again
                 ops += [{"op": "cmode", "o": "o1", "b": "c9", "en": False}, {"op": "call", "call": mcall()}]
@@ -147,8 +153,8 @@ def family_fixed(tier, seed, n=None):
                 elems = ["o1.l[%d]" % i for i in range(size)]
                 if kind == "fe_toggle":
                     ops.append({"op": "cmode", "o": "o1", "b": "c9", "en": _ == 0})
-                ops.append({"op": "call", "call": mcall()})
-                ops.append({"op": "probe", "call": wcall(), "paths": ["o1.a"] + elems, "cap": 1024})
+                ops.append({"op": "call", "call": mcall() if not dyn else wcall(dyn)})
+                ops.append({"op": "probe", "call": wcall(dyn), "paths": ["o1.a"] + elems, "cap": 1024})
             out.append({"id": "L/fixed/%s/%s/%d" % (kind, "core" if core else "s%d" % seed, t), "world": world, "ops": ops, "tags": []})
     return out
 
